@@ -375,6 +375,28 @@ class Check:
         return 1 if self.violations else 0
 
 
+def apalache_check(module_path, name, init=None, inv=None, length=1, timeout=3000, extra=()):
+    """apalache-mc check on a module under spec/apalache.  Returns ("ok" | "error" | "timeout" | "tool", seconds, tail)."""
+    wd = workdir("apalache-" + name)
+    cmd = ["timeout", str(timeout), "apalache-mc", "check", "--out-dir=" + wd, "--length=%d" % length]
+    if init:
+        cmd.append("--init=" + init)
+    if inv:
+        cmd.append("--inv=" + inv)
+    cmd += list(extra) + [os.path.join(VERIF, module_path)]
+    t0 = time.time()
+    r = subprocess.run(cmd, cwd=wd, stdout=subprocess.PIPE, stderr=subprocess.STDOUT, text=True)
+    dt = time.time() - t0
+    tail = r.stdout[-1500:]
+    if r.returncode == 124:
+        return "timeout", dt, tail
+    if "EXITCODE: OK" in r.stdout:
+        return "ok", dt, tail
+    if "EXITCODE: ERROR (12)" in r.stdout or "violated" in r.stdout.lower():
+        return "error", dt, tail
+    return "tool", dt, tail
+
+
 def ddmin(seq, failing_batch, max_rounds=40):
     """Delta debugging over a list: failing_batch(list of candidate lists) -> list of bools (candidate still fails).
     Candidates of one round are judged in ONE batch (one TLC + one harness run).  Returns a 1-minimal-ish failing list."""
